@@ -30,8 +30,10 @@ PROPS = {
     },
     'C03': {'text': 'Proof: add_text and add_inline_text hand exactly the kept characters of the (filtered) text to the block, in order; every line '
                     'operation of the engine keeps the buffered content; add_line / append_subrender / collapse loops only add or move whole lines; '
-                    'table cells with a positive width are kept in order.',
-            'unverified': ['DOM -> render tree mapping (what is ignored / becomes a container)', 'renderer-level content across flush_wrapping is stated per line, not as one sequence']},
+                    'table cells with a positive width are kept in order.  Renderer level: closing a block moves all its characters to the renderer\'s lines '
+                    '(the view finished lines ++ pending markers ++ open block is kept by every block / line / rule operation, extended by add_inline_text by exactly '
+                    'the kept characters and by append_subrender by every nested line behind its prefix).',
+            'unverified': ['DOM -> render tree mapping (what is ignored / becomes a container; findings D19, D20)', 'the order in which do_render_node calls the renderer operations']},
     'C04': {'text': 'Proof: the greedy fit rule of flush_word and the whitespace-collapse rule of add_text are postconditions on the real functions; effective widths come from width_minus / get_wrapping_or_insert.',
             'unverified': ['reference greedy wrapper equality is stated per step (fit test), not over whole paragraphs']},
     'C05': {'text': 'Proof: BorderHoriz operations against an abstract (bar above, bar below) view per position with full frame conditions; the glyph table against the '
@@ -55,16 +57,16 @@ PROPS = {
             'unverified': ['<pre> -> white-space: pre mapping in the DOM pass']},
     'C13': {'text': 'Proof for the engine: in collapsing mode a whitespace character changes state only by recording one pending space when the line is non-empty and none is pending, so whitespace runs are equivalent to one space; whitespace between blocks is ignored.',
             'unverified': ['comment/span transparency in the DOM pass (bounded stand-in only)']},
-    'C14': {'text': 'Proof: insert_child places the marker first; flush paths keep every non-string element of the word; markers have zero width; pending markers go to the next text line exactly once and stay pending across borders.',
+    'C14': {'text': 'Proof: insert_child places the marker first; flush paths keep every non-string element of the word; markers have zero width; pending markers go to the next text line exactly once and stay pending across borders; record_frag_start appends exactly one marker to the renderer\'s view; into_lines keeps markers left alone in the line buffer (D18).',
             'unverified': ['id/name extraction in process_dom_node (bounded stand-in only)']},
     'C15': {'text': 'Proof: each builder method changes exactly its field(s); wrap width is min(max_wrap_width, width); pad_to only appends spaces; strike-through filter and footnote switches follow the options.',
             'unverified': ['table border switches inside closures of render_table_row']},
     'C16': {'text': 'Proof of prefix measurement by display width under a decorator contract allowing arbitrary strings; prefixes in front of every line; inline affixes reach the block verbatim outside the element\'s own filter; TrivialDecorator returns only empty strings.',
             'unverified': ['decorator strings are spec functions of the decorator (A6: deterministic decorators)']},
-    'C18': {'text': 'Proof for the mechanism: styles_from_properties emits Display(None) exactly for display:none and the zero-height + hidden-overflow idiom; document CSS switch plumbing.',
+    'C18': {'text': 'Proof for the mechanism: styles_from_properties emits Display(None) exactly for display:none and the zero-height + hidden-overflow idiom, and a declaration of its own for every other display value (so that it can win in the cascade: D23); document CSS switch plumbing.',
             'unverified': ['"renders as if deleted" relation over documents: process_dom_node early return (bounded stand-in only)']},
-    'C19': {'text': 'Proof: WithSpec::maybe_update replaces the stored value exactly when the cascade key (importance/origin rank, specificity) of the new declaration is >= the stored one, for all keys; Specificity order is lexicographic, counting saturating and recursive.',
-            'unverified': ['which rules computed_style offers to the cascade; nearest-ancestor colour nesting relies on push/pop pairing in closures']},
+    'C19': {'text': 'Proof: WithSpec::maybe_update replaces the stored value exactly when the cascade key (importance/origin rank, specificity) of the new declaration is >= the stored one, for all keys; Specificity order is lexicographic, counting saturating and recursive; computed_style offers every declaration of every matching rule of the three origins in order, then the style / color / bgcolor attributes as author declarations of inline specificity with their own importance.',
+            'unverified': ['rule storage (which rules reach the three rule sets); nearest-ancestor colour nesting relies on push/pop pairing in closures']},
     'C20': {'text': 'Proof (partial correctness) that the real Selector::do_matches / matches return exactly the CSS selector semantics '
                     '(class, id, element name, universal = any element, child and descendant combinators as "some proper ancestor", :nth-child(an+b of S) '
                     'as rank among matching element siblings) over the repository\'s own DOM types; :nth-child arithmetic against the '
